@@ -236,6 +236,24 @@ def run(tier, seed):
     p = e2e.Play(PLAY_HEAD % ("", "ok"), outdir_arg="/proc/verif-no-such-dir/out", timeout=30)
     plays.append(p)
     meta.append({"expect_fail": True, "what": "the output directory cannot be created", "tag": {"site": "directory"}, "config": p.text, "args": ["-o", "/proc/..."]})
+    # upload operations: a stand-in `scp` first on the PATH that succeeds, exits 1, or is killed by a signal
+    # (status -1 for the program: "failed" must not be read off a positive exit code)
+    up_scratch = Scratch("verif-c03-")
+    bindir = os.path.join(os.path.realpath(up_scratch.__enter__()), "bin")
+    os.makedirs(bindir)
+    with open(os.path.join(bindir, "scp"), "w") as f:
+        f.write("#!/bin/bash\ncase \"${VERIF_SCP_FAIL:-}\" in\n signal) case \"$(cat /proc/$PPID/comm 2>/dev/null)\" in bash|sh|dash) kill -KILL $PPID;; esac; kill -KILL $$;;\n"
+                " 1) echo 'scp: connection refused' >&2; exit 1;;\nesac\nexit 0\n")
+    os.chmod(os.path.join(bindir, "scp"), 0o755)
+    for mode, expf, what in (("", False, "the upload succeeds"), ("1", True, "the upload tool exits 1"), ("signal", True, "the upload tool is killed by a signal")):
+        for url in ("scp://host/results",):
+            p = e2e.Play(PLAY_HEAD % ("", "ok"), args=["--upload-url", url], timeout=60,
+                         env={"PATH": bindir + ":" + os.environ["PATH"], "VERIF_SCP_FAIL": mode})
+            plays.append(p)
+            meta.append({"expect_fail": expf, "what": what, "tag": {"site": "upload", "mode": mode or "ok"}, "config": p.text, "args": ["--upload-url", url, "VERIF_SCP_FAIL=" + mode]})
+    p = e2e.Play(PLAY_HEAD % ("", "ok"), args=["--upload-url", "ftp://host/results"], timeout=60)
+    plays.append(p)
+    meta.append({"expect_fail": True, "what": "the upload URL has an unsupported scheme", "tag": {"site": "upload", "mode": "scheme"}, "config": p.text, "args": ["--upload-url", "ftp://host/results"]})
     # schedules: the verdict of the final round must survive every order in which the conductor
     # notices that spotlights, audition and collector have finished (pause points steer the selects)
     final_only = {"bad at the end only": ("eventually", "t < 0", "", True), "good at the end only, fouling": ("always", "t >= 0", "interpretation\n  foul upon bob satisfaction\nend\n", True),
@@ -252,6 +270,7 @@ def run(tier, seed):
                 meta.append({"expect_fail": expf, "what": "verdict of the final round (%s) under schedule: %s" % (fname, sname),
                              "tag": {"site": "final-round-verdict", "schedule": sname}, "config": text, "args": ["VERIF_POINTS=" + pts]})
     results = e2e.run_many(plays, workers=12)
+    up_scratch.__exit__(None, None, None)
     for r, m in zip(results, meta):
         rep.case(("b", m["config"], json.dumps(m["args"])))
         rep.count("e2e:" + m["tag"]["site"])
@@ -261,7 +280,7 @@ def run(tier, seed):
             problems.append("timed out")
         if failed != m["expect_fail"]:
             problems.append("exit status %s, expected %s" % (r["rc"], "non-zero" if m["expect_fail"] else "0"))
-        if r["result"] is not None and m["tag"]["site"] != "directory":
+        if r["result"] is not None and m["tag"]["site"] not in ("directory", "upload"):
             if bool(r["result"].get("Foul")) != failed:
                 problems.append("result.js Foul=%s but exit status %s" % (r["result"].get("Foul"), r["rc"]))
             if failed and not r["result"].get("Error"):
